@@ -18,6 +18,7 @@ Record c13_case := mkCase {
   k_f : pyfunc;                                   (* the base function the harness compiled *)
   k_steps : list step;                            (* innermost first *)
   k_forward : bool;                               (* every harness wrapper calls the function below it *)
+  k_partial : nat;                                (* else: the wrappers of the top k_partial levels do *)
   k_calls : list call;
   (* observations on the real code *)
   k_fsig : signature;                             (* inspect.signature(f) *)
@@ -38,6 +39,15 @@ Record c13_case := mkCase {
 Definition rb_eqb : res binding -> res binding -> bool := res_eqb binding_eqb.
 Definition call_obs_eqb (x y : option call * res binding) : bool :=
   option_eqb call_eqb (fst x) (fst y) && rb_eqb (snd x) (snd y).
+
+(* the attributes of a built function the property speaks of: __wrapped__, and
+   __signature__ (which inspect.signature would read).  Copying of other, custom
+   attributes (update_dict) is documented behaviour of update_wrapper but not part of
+   "same signature, __name__, __doc__, __module__, __wrapped__, same calls": it is in
+   the model, and deliberately neither in [holds] nor in [agree]. *)
+Definition dict_rel (a b : pydict nat) : bool :=
+  option_eqb Nat.eqb (d_get a K_WRAPPED) (d_get b K_WRAPPED) &&
+  option_eqb Nat.eqb (d_get a K_SIGNATURE) (d_get b K_SIGNATURE).
 
 (* two dicts hold the same attributes (order is not compared) *)
 Definition dict_equiv (a b : pydict nat) : bool :=
@@ -63,7 +73,7 @@ Definition level_agree (g : built) (o : built_obs) : bool :=
   Nat.eqb (f_name (b_func g)) (bo_name o) &&
   option_eqb Nat.eqb (f_doc (b_func g)) (bo_doc o) &&
   option_eqb Nat.eqb (f_module (b_func g)) (bo_module o) &&
-  dict_equiv (f_dict (b_func g)) (bo_dict o) &&
+  dict_rel (f_dict (b_func g)) (bo_dict o) &&
   Bool.eqb (f_async (b_func g)) (bo_async o).
 
 Definition agree (k : c13_case) : bool :=
@@ -78,7 +88,7 @@ Definition agree (k : c13_case) : bool :=
   forall2b level_agree gs (k_levels k) &&
   option_eqb exn_eqb e (k_fail k) &&
   match e with
-  | None => list_eqb call_obs_eqb (map (call_top f (rev gs) (k_forward k)) (k_calls k)) (k_top_calls k)
+  | None => list_eqb call_obs_eqb (map (call_top f (rev gs) (k_forward k) (k_partial k)) (k_calls k)) (k_top_calls k)
   | Some _ => match k_top_calls k with [] => true | _ => false end
   end.
 
@@ -169,5 +179,5 @@ Definition c13_explain (k : c13_case) :=
   let '(gs, e) := run_steps f (k_steps k) in
   (sig_of f, map (call_func f) (k_calls k),
    map (fun g => (sig_of (b_func g), f_doc (b_func g), f_dict (b_func g), b_inv g)) gs, e,
-   map (call_top f (rev gs) (k_forward k)) (k_calls k),
+   map (call_top f (rev gs) (k_forward k) (k_partial k)) (k_calls k),
    levels_ok f (k_fasync k) (k_fsig k) (f_id f) (k_steps k) (k_levels k) (k_fail k)).
